@@ -352,9 +352,23 @@ func c16BashModel(word string) (string, c16Quirks) {
 	}
 	var kept []string
 	for _, w := range words {
-		if u := unescapePattern(w); u != "" {
+		if u := c16Unescape(w); u != "" {
 			kept = append(kept, u)
 		}
 	}
 	return "0:<" + strings.Join(kept, "><") + ">", q
+}
+
+// c16Unescape removes one level of backslash escapes (quote removal for a
+// word of ordinary characters and backslashes); a trailing lone backslash
+// stays. (Own copy, so that C16 builds without the other checks' files.)
+func c16Unescape(p string) string {
+	var sb strings.Builder
+	for i := 0; i < len(p); i++ {
+		if p[i] == '\\' && i+1 < len(p) {
+			i++
+		}
+		sb.WriteByte(p[i])
+	}
+	return sb.String()
 }
